@@ -558,7 +558,7 @@ pub fn handle(op: &str, a: &[&str]) -> Option<String> {
                     }
                 }
             }
-            Some(with_oracle(format!("digest {h}"), bad.map(|b| format!("{b} ({badc} cases)"))))
+            Some(with_oracle(format!("ok digest={h}"), bad.map(|b| format!("{b} ({badc} cases)"))))
         }
         ("eval", [e, asz, fmt, ver, st, init, obj, mx, h, sc, rest @ ..]) => {
             if rest.len() > 1 {
@@ -601,7 +601,7 @@ pub fn handle(op: &str, a: &[&str]) -> Option<String> {
                 }
                 h = digest_step(h, str_hash(&reply));
             });
-            Some(with_oracle(format!("digest {h}"), bad.map(|b| format!("{b} ({badc} cases)"))))
+            Some(with_oracle(format!("ok digest={h}"), bad.map(|b| format!("{b} ({badc} cases)"))))
         }
         _ => None,
     }
